@@ -497,6 +497,22 @@ pub fn grid(tier: Tier) -> Vec<Case> {
             }
         }
     }
+    // (8) both bounds inside one integer part, fractions with up to three digits: every upper bound in thousandths
+    //     against lower bounds on a coarser raster, positive and mirrored negative (digit-wise comparison of fraction tails)
+    let lo_step: i64 = tier.pick(50, 10);
+    for base in [0i64, 1000, 12000] {
+        let mut lo = base;
+        while lo <= base + 400 {
+            for hi in lo..=base + 420 {
+                let pat = (lo / lo_step + hi).rem_euclid(4);
+                v.push(Case { integer: false, lo: Some((lo, pat & 1 == 1)), hi: Some((hi, pat & 2 == 2)), mult: None, lo2: None, hi2: None, big: 0 });
+                if hi % 7 == 0 {
+                    v.push(Case { integer: false, lo: Some((-hi, pat & 2 == 2)), hi: Some((-lo, pat & 1 == 1)), mult: None, lo2: None, hi2: None, big: 0 });
+                }
+            }
+            lo += lo_step;
+        }
+    }
     // (6) both keywords on one side (minimum + exclusiveMinimum, maximum + exclusiveMaximum): equal, and off by one either way
     let wb: i64 = tier.pick(30, 120);
     for b in -wb..=wb {
@@ -540,7 +556,7 @@ impl Prop for C08 {
     fn rule(&self) -> String {
         "grid: (1) every integer pair lo<=hi in [-W,W]^2 (quick W=120, thorough 400) with a rotating inclusive/exclusive pattern, (2) half-open and \
          unbounded schemas, (3) number and integer schemas over a structured set of decimal bounds (<= 3 fractional digits: around 0, +-1, equal \
-         integer parts, equal prefixes, trailing zeros, 9-runs), (4) bounds at 10^e-1, 10^e, 10^e+1 for e <= 15, (7) bounds m*10^e for m in {1,2,5,9}, e in {12,15..20,22} \
+         integer parts, equal prefixes, trailing zeros, 9-runs), (4) bounds at 10^e-1, 10^e, 10^e+1 for e <= 15, (8) number schemas with both bounds inside one integer part: every upper bound in thousandths up to +0.42 against lower bounds on a 0.05 (thorough 0.01) raster, some mirrored to negative, (7) bounds m*10^e for m in {1,2,5,9}, e in {12,15..20,22} \
          (up to and beyond 2^63; literals also around +-2^53, 2^63, 2^64), (5) multipleOf in {1,2,3,5,7,10,25,\
          100,0.5,0.1,0.25,0.01,1.5} crossed with windows; plus random bounds. Literals per schema: every integer in/around small windows, bound \
          +-10^-k (k<=6), digit-count neighbours, each re-spelt with 1-2 trailing zeros. evaluation = one literal verdict (validate_tokens(text+EOS)) \
